@@ -576,6 +576,8 @@ class DatasetWorld(object):
             elif what == "reduce":
                 st["fn"] = rng.choice(["mean", "std", "var", "median", "sum"])
                 st["skipna"] = rng.random() < 0.3
+                if rng.random() < 0.12:
+                    st["axis"] = None           # every variable is reduced over all its dimensions
             elif what == "take_axis":
                 n = len(labs)
                 if n == 0:
@@ -593,9 +595,9 @@ class DatasetWorld(object):
                 from dsim.worlds.array_ops import _gen_new_labels
                 st["values"] = _gen_new_labels(rng, labs)
                 r = rng.random()
-                if r < 0.15:
-                    st["fill_value"] = -99
-                elif r < 0.25:
+                if r < 0.2:
+                    st["fill_value"] = rng.choice([-99, 0, 0.0])
+                elif r < 0.3:
                     st["method"] = rng.choice(["left", "right"])
             elif what == "interp_axis":
                 if not labs or any(isinstance(x, str) for x in labs):
@@ -629,6 +631,7 @@ class DatasetWorld(object):
             st["fn"] = rng.choice(["add", "sub", "mul"])
             st["drop_key"] = rng.random() < 0.3
             st["transpose_var"] = rng.random() < 0.3
+            st["other_labels"] = rng.random() < 0.35
         return st
 
     # ------------------------------------------------------------------ execution
